@@ -55,12 +55,14 @@ CLAIMED = {
         note=CONN_NOTE, tech="machine-checked proof in Coq (inductive invariant over all label sequences = all interleavings) + trace validation against the real APIConnection",
         ref="DESIGN.md §5 C05"),
     "C07": dict(
-        text="Coq theorems C07_stop_exactly_once (in every reachable state the history of on_stop calls has at most one entry, exactly one iff the connection was ever CONNECTED and is CLOSED) and "
-             "C07_no_second_stop (from a closed state no transition calls it again) about Model/Conn.v; the reason argument is the expected-disconnect flag at the close (examples for peer request, "
-             "reset, force with failing write). Tied by trace validation; the count/timing/reason predicate is evaluated on the implementation's traces with an oracle derived from the labels.",
-        note=CONN_NOTE + "The theorem about the reason argument is stated through the model's expected_disconnect flag (set by exactly the three graceful initiations in the model); the label-based oracle on the implementation is a test.",
-        tech="machine-checked proof in Coq (inductive invariant with ghost history of stop calls) + trace validation against the real APIConnection",
-        ref="DESIGN.md §5 C07"),
+        text="Coq theorems about Model/Conn.v: C07_stop_exactly_once (in every reachable state the history of on_stop calls has at most one entry, exactly one iff the connection was ever CONNECTED and is CLOSED), "
+             "C07_no_second_stop (from a closed state no transition calls it again); the ARGUMENT, over all runs: C07_true_only_if_initiated(_before) (a call with true is preceded or made by force_disconnect, disconnect() or a chunk "
+             "carrying a DisconnectRequest frame), C07_flag_up_then_true (the expected-disconnect flag is never lowered; from any reachable state in which it is up every later call has argument true), C07_false_means_flag_never_up, and what raises the flag: "
+             "C07_force_initiates, C07_disconnect_initiates, C07_disconnect_wait_over_initiates, C07_disconnect_request_initiates (any reachable state with a complete handshake; C07_disconnect_handler_registered). "
+             "Tied by trace validation; the count/timing/reason predicate is evaluated on the implementation's traces with an oracle derived from the labels.",
+        note=CONN_NOTE + "The label-based oracle on the implementation is a test; the theorems are about the model it is validated against.",
+        tech="machine-checked proof in Coq (inductive invariant with ghost history of stop calls; per-label relation on the flag, the stop history and the internal handler entries, Proofs/ConnReason.v) + trace validation against the real APIConnection",
+        ref="DESIGN.md §5 C07, §9.1"),
     "C08": dict(
         text="Coq theorems C08_closed_released (every reachable closed state: keepalive/pong timers cancelled, waiter set empty, socket released, helper released or about to be, flags down) and "
              "C08_closed_is_silent (from a closed state no label - data, timers, wake-ups, user calls - produces a write of application messages, a subscriber delivery or a stop call, and the state stays closed) "
@@ -77,12 +79,14 @@ CLAIMED = {
         tech="machine-checked proof in Coq (decision function characterised by an iff; case analysis of every exit of finish_connection) + exhaustive configuration sweep with trace validation",
         ref="DESIGN.md §5 C06"),
     "C09": dict(
-        text="Coq theorems C09_wrapper_always_library, C09_start_classified, C09_finish_failure_classified, C09_call_outcome (every exit of start_connection / failing finish_connection / a request is a result or a library error; CancelledError only for a cancelled task), "
+        text="Coq theorems: C09_every_outcome_classified (in EVERY run from the initial state every task outcome - start_connection, finish_connection, disconnect, any request/response call - is the result, an error of the library hierarchy, "
+             "or a cancellation, and a cancellation only ever ends disconnect() or a call), C09_connect_phases_never_cancelled, C09_reachable_futures_classified (invariant: call futures hold only the result, asyncio's time-out, a library error or a cancellation), "
+             "C09_wrapper_always_library, C09_start_classified, C09_finish_failure_classified, C09_call_outcome, "
              "C09_first_cause_kept, C09_waiters_get_first_cause (all pending waiters receive the error derived from the first fatal cause), C09_start_arms_timer, C09_time_respects_deadlines, C09_documented_bounds (30/60/30/30/5/10 s read from the source). "
              "PARTIAL: the composition 'every awaited operation is complete by start + bound' is not proved as one theorem about runs; it is checked on the implementation at every quiescent point under the virtual clock together with a never-hangs audit.",
         note=CONN_NOTE + "Awaits inside third-party libraries (aiohappyeyeballs, zeroconf, getaddrinfo) are inputs that may complete with any outcome or never.",
-        tech="machine-checked proof in Coq (case analysis of every task exit; first-cause lemmas) + trace validation, completion-time and hang audit on the real APIConnection; partial (bounded-time composition is tested, not proved)",
-        ref="DESIGN.md §5 C09"),
+        tech="machine-checked proof in Coq (invariant on the call table over all 35 labels, Proofs/ConnOutcome.v; case analysis of every task exit; first-cause lemmas) + trace validation, completion-time and hang audit on the real APIConnection; partial (bounded-time composition is tested, not proved)",
+        ref="DESIGN.md §5 C09, §9.1"),
     "C10": dict(
         text="Coq theorems C10_ping_iff_idle, C10_dead_exactly (death exactly 4.5K after the first ping since the last message, hence between 5.5K and 6.5K after the last message), C10_obs_sources, C10_arrival_disarms, C10_all_runs about Model/Keepalive.v: "
              "a mirror of the keepalive trio for ARBITRARY K = 2h and the ratio read from the source, with an inductive invariant over every event sequence (arrivals, both timers, time moving up to the next deadline). "
